@@ -11,7 +11,7 @@ import lib
 from lib import clist, cstr, cbool, copt
 
 warnings.filterwarnings("ignore")
-N = {"quick": 50, "thorough": 600}          # worlds (each world: 2 layouts, ~10 transforms, ~6 composites, 2 backends)
+N = {"quick": 50, "thorough": 450}          # worlds (each world: 2 layouts, ~10 transforms, ~6 composites, 2 backends)
 N_MALFORMED = {"quick": 180, "thorough": 1500}
 
 
@@ -689,7 +689,7 @@ def run(chk):
         "left merge on the control keys, positional concat axis=1, concat axis=0): modelled, not verified; sampled by the correspondence on every run",
         "the Polars realisation (polars_model.py) is NOT modelled: it is covered by the differential oracle Pandas vs Polars only",
         "harness/props/C17.py: value encoding (every number an exact rational in lowest terms, None/NaN -> VNull), the AST reader that extracts the "
-        "value_suffix compose() passes to example_input",
+        "value_suffix compose() passes to example_input (\"\" since /repo 031522a)",
     ]
     chk.assumptions = [
         "record keys and control-table keys of data are non-null (theorem hypotheses keyed_by / complete_blocks); null keys are exercised outside the guard and only counted",
@@ -880,6 +880,10 @@ def run(chk):
                 c, cst = None, "raises"
             o = "OCRaise" if cst == "raises" else "OCNone" if cst == "none" else "(OCMap %s)" % comap(c)
             add_term("KCompose %s %s %s %s" % (cstr(sfx), cmapargs(m1), cmapargs(m2), o), {"map1": m1, "map2": m2, "what": "compose", "observed": o[:40], "data": jt(data), "via": via})
+            if sfx == "":
+                # the hypothesis of the C17_compose_sound_partial theorems, evaluated inside Coq on this composite
+                add_term("KComposeOk %s %s %s" % (cstr(sfx), cmapargs(m1), cmapargs(m2)),
+                         {"map1": m1, "map2": m2, "what": "composite_ok (input side of the first map, layout of the second map's output side)", "data": jt(data), "via": via})
             try:
                 ex = from_frame(mp2.example_input(value_suffix=sfx))
                 add_term("KExample %s %s %s" % (cstr(sfx), cmapargs(m2), ctable(ex)), {"map": m2, "what": "example_input"})
